@@ -32,6 +32,11 @@ CLAIMED = {
             "Seeded search with cancellations/timeouts aimed at connection creation and hand-over windows plus connection deaths; after the fault phase a probe of `max` simultaneous callers must rendezvous inside Invoke within a simulated hour, otherwise capacity was lost; leaked connections are classified black-box (never used / idle after use).",
             "Trusted: as C27; the probe is black-box (no pool internals read).",
             "DESIGN.md §6 C28"),
+    "C31": ("fs", "fault_enumeration",
+            "deterministic simulation of session.FileStorage over a simulated disk; complete enumeration of crash points (every syscall boundary x torn-write class x recovery model) per sampled save sequence",
+            "For each sampled sequence of 1-3 saves (session contents and sizes from the seed) the check enumerates EVERY syscall boundary of the saves, six torn-write prefixes for write syscalls, a process-crash model and seven power-loss survival patterns (including 'rename survived, data did not'), restarts from what is durable and requires Loader.Load to return exactly the previous or the new session (any complete earlier session under power loss). Exhaustive over crash points of each sampled history; histories are sampled.",
+            "Trusted: simos models the syscalls the storage performs (open/write/fsync/rename/close) and their durability like a journalling POSIX file system (fsync makes data and the file's own creation durable; renames need a directory fsync); the instrumenter's os->simos import swap in session/storage_file.go.",
+            "DESIGN.md §6 C31"),
     "C42": ("dial", "exploration",
             "deterministic simulation of the real dcs.Plain dial race over a scripted simulated dialer; quiescence oracle on established connections",
             "Seeded search over per-address dial outcomes (success, failure, hang, success after cancellation, reset before handshake), latencies, caller cancellation/deadline and goroutine interleavings; at quiescence exactly the returned connection is open (or none on error), and an all-fail error combines every cause.",
